@@ -105,6 +105,13 @@ func (t *TempoService) OutputQuery(binIds bool, rows *sql2.Rows) (chan *model.Sp
 	res := make(chan *model.SpanResponse)
 	go func() {
 		defer close(res)
+		defer func() {
+			// the span parsers index and type-assert stored payloads; this goroutine is detached,
+			// so a malformed payload must end the result, not the process
+			if err := recover(); err != nil {
+				fmt.Println("panic:", err)
+			}
+		}()
 		parser := fastjson.Parser{}
 		for rows.Next() {
 			var zipkin zipkinPayload
